@@ -103,3 +103,14 @@ def field_effects(eng, body, adt, field_names, extra_args=()):
 
 def unchanged(v, name):
     return isinstance(v, SymV) and v.id == "f:" + name
+
+
+def holds(snap, ident):
+    """the snapshot contains the unknown value `ident` itself - as a value (a field of a token, the pointee of a reference
+    ...), not merely in the *description* of some other unknown value (say, the result of a function that was not analysed
+    in place, which lists its arguments): `"tok-X-0" in repr(snap)` would be satisfied by the latter too"""
+    if isinstance(snap, tuple):
+        if snap and snap[0] == "sym":
+            return len(snap) > 1 and snap[1] == ident
+        return any(holds(x, ident) for x in snap)
+    return False
